@@ -576,6 +576,114 @@ pub fn m7() -> InputFam {
     fam("M7-program", "program-level faults on b1..b4 and D1 (indexed, RGBA), re-encoded with consistent sizes: every chunk deleted / duplicated / swapped with its successor / moved to the end of the next frame / retyped as each of the 13 other known chunk types; every frame dropped / duplicated / its chunks reversed", v)
 }
 
+
+/// all string sites of a chunk body
+fn strings_of(b: &mut Body) -> Vec<(&'static str, &mut Str)> {
+    match b {
+        Body::Layer(l) => vec![("layer name", &mut l.name)],
+        Body::Tags(t) => t.tags.iter_mut().map(|t| ("tag name", &mut t.name)).collect(),
+        Body::Palette(p) => p.entries.iter_mut().filter(|e| e.flags & 1 != 0).map(|e| ("palette entry name", &mut e.name)).collect(),
+        Body::UserData(u) if u.flags & 1 != 0 => vec![("user data text", &mut u.text)],
+        Body::Slice(s) => vec![("slice name", &mut s.name)],
+        Body::Tileset(t) => vec![("tileset name", &mut t.name)],
+        Body::ExternalFiles(e) => e.entries.iter_mut().map(|e| ("external file name", &mut e.name)).collect(),
+        Body::Mask(m) => vec![("mask name", &mut m.name)],
+        _ => vec![],
+    }
+}
+
+/// string shapes: (label, bytes).  For every byte offset N >= 1 and every character width
+/// c in {2,3,4} some shape of each total length has a character straddling offset N.
+pub fn text_shapes() -> Vec<(String, Vec<u8>)> {
+    let mut v: Vec<(String, Vec<u8>)> = Vec::new();
+    for l in [0usize, 1, 2, 31, 32, 33, 39, 40, 41, 63, 64, 65, 99, 100, 101, 119, 120, 121, 127, 128, 129, 255, 256, 257, 1000, 65535] {
+        v.push((format!("ascii x{}", l), vec![b'a'; l]));
+    }
+    let chars: [&str; 3] = ["\u{e9}", "\u{20ac}", "\u{1f600}"];
+    for total in [50usize, 130, 300, 1100] {
+        for ch in chars {
+            let c = ch.len();
+            for k in 0..c {
+                let mut b = vec![b'a'; k];
+                while b.len() < total {
+                    b.extend_from_slice(ch.as_bytes());
+                }
+                v.push((format!("{} ascii + {}-byte chars to {} bytes", k, c, b.len()), b));
+            }
+        }
+    }
+    // mixed widths and not-UTF-8
+    v.push(("mixed widths".into(), "a\u{e9}\u{20ac}\u{1f600}".repeat(40).into_bytes()));
+    v.push(("lone continuation bytes".into(), vec![0x80; 45]));
+    v.push(("truncated 4-byte sequence at the end".into(), { let mut b = vec![b'a'; 40]; b.extend_from_slice(&[0xf0, 0x9f, 0x98]); b }));
+    v.push(("NUL bytes".into(), vec![0; 130]));
+    v
+}
+
+/// M8: every string of the bases replaced by every text shape, alone and together with each
+/// enum / index / flags field of the same chunk set to its type maximum
+pub fn m8() -> InputFam {
+    let shapes = Arc::new(text_shapes());
+    // (base index, frame, chunk, site, shape, Option<field ordinal among the chunk's enum/index/flags fields>)
+    let mut bases: Vec<(String, File)> = gen::bases().into_iter().map(|(n, f)| (n.to_string(), f)).collect();
+    bases.push(("d1i".into(), gen::d1(&Fmt::Indexed(4))));
+    bases.push(("d1".into(), gen::d1(&Fmt::Rgba)));
+    let mut idx: Vec<(u8, u16, u16, u16, u16, Option<u8>)> = Vec::new();
+    for (bi, (_, f)) in bases.iter_mut().enumerate() {
+        let enc = f.encode_full(true);
+        for fi in 0..f.frames.len() {
+            for ci in 0..f.frames[fi].chunks.len() {
+                let nsites = strings_of(&mut f.frames[fi].chunks[ci].body).len();
+                let nfields = enc.fields.iter().filter(|x| x.frame == fi as u32 && x.chunk == ci as u32 && x.name != "chunk_type" && matches!(x.role, Role::Enum | Role::Index | Role::Flags)).count().min(8);
+                for si in 0..nsites {
+                    for sh in 0..shapes.len() {
+                        idx.push((bi as u8, fi as u16, ci as u16, si as u16, sh as u16, None));
+                        for k in 0..nfields {
+                            idx.push((bi as u8, fi as u16, ci as u16, si as u16, sh as u16, Some(k as u8)));
+                        }
+                    }
+                }
+            }
+        }
+    }
+    let bases = Arc::new(bases);
+    let idx = Arc::new(idx);
+    let build = {
+        let (bases, idx, shapes) = (bases.clone(), idx.clone(), shapes.clone());
+        move |i: usize| -> (String, Vec<u8>) {
+            let (bi, fi, ci, si, sh, fld) = idx[i];
+            let mut f = bases[bi as usize].1.clone();
+            let site = {
+                let mut sites = strings_of(&mut f.frames[fi as usize].chunks[ci as usize].body);
+                let (nm, s) = sites.swap_remove(si as usize);
+                s.bytes = shapes[sh as usize].1.clone();
+                nm
+            };
+            let mut label = format!("{} frame{} chunk{} {}#{} := {}", bases[bi as usize].0, fi, ci, site, si, shapes[sh as usize].0);
+            let enc = f.encode_full(fld.is_some());
+            let mut bytes = enc.bytes;
+            if let Some(k) = fld {
+                if let Some(x) = enc.fields.iter().filter(|x| x.frame == fi as u32 && x.chunk == ci as u32 && x.name != "chunk_type" && matches!(x.role, Role::Enum | Role::Index | Role::Flags)).nth(k as usize) {
+                    let max = if x.width >= 8 { u64::MAX } else { (1u64 << (8 * x.width as u32)) - 1 };
+                    // "just out of range" for small enums, the type maximum otherwise
+                    let v = if x.role == Role::Enum && x.width <= 2 { 19.min(max) } else { max };
+                    bytes = patch(&bytes, x, v);
+                    label.push_str(&format!(" and {}={}", x.label(), v));
+                }
+            }
+            (label, bytes)
+        }
+    };
+    let b2 = build.clone();
+    InputFam {
+        name: "M8-text".into(),
+        what: format!("b1..b4 and D1 (indexed, RGBA): every string (layer, tag, slice, tileset, palette-entry, external-file and mask names, user-data texts) replaced by each of {} shapes — ASCII of 26 lengths around 32/40/64/100/120/128/256/65535, and 1100/300/130/50-byte runs of 2-, 3- and 4-byte characters behind 0..width-1 ASCII bytes (so that for every byte offset some shape has a character straddling it), mixed widths, invalid UTF-8, NULs — alone and together with each enum / index / flags field of the same chunk set out of range", shapes.len()),
+        n: idx.len(),
+        gen: Box::new(move |i| build(i).1),
+        label: Box::new(move |i| b2(i).0),
+    }
+}
+
 /// M5: tiny and constant inputs
 pub fn m5() -> InputFam {
     let mut v: Vec<(String, Vec<u8>)> = vec![("empty".into(), vec![])];
@@ -747,6 +855,7 @@ pub fn all_families(tier: Tier) -> Vec<InputFam> {
     }
     v.push(m3());
     v.push(m7());
+    v.push(m8());
     v.extend(m4(&gen_bases));
     v.push(m5());
     v.push(m6());
